@@ -55,7 +55,7 @@ class S(vlib.Spec):
         if ctx.tier == "quick":
             a += ["-bases", "8", "-per-base", "20"]     # + corpus (43 cases) + the 8 unmodified programs
         else:
-            a += ["-bases", "30", "-per-base", "80"]    # about 2,500 cases / 6,500 process runs
+            a += ["-bases", "20", "-per-base", "60"]    # about 1,250 cases / 3,300 process runs (5 min; 10 under heavy load)
         return a
 
     @staticmethod
